@@ -17,7 +17,7 @@ LEVEL_TEXT = ("Theorems in Coq (Props/C13.v): keXHat(x) = 2^127 + (x mod 2^127) 
               "for all keys, ephemerals, identities below 8192 bytes and key lengths; initiator and responder obtain the same (K, S1, S2) for all scalars "
               "in [1,n-1]; a peer ephemeral that is not a curve point with coordinates in [0,p) (incl. (0,0)) and V = O yield an error.")
 LEVEL_NOTE = ("Relative to C03: ScalarMult / Add / IsOnCurve are the affine operations of EC/SM2Curve.v with infinity written (0,0). Conformance and agreement "
-              "is relative to 'p prime' only, agreement to p prime + associativity + [n]G = O + [k]G finite for 0<k<n (premises visible in the statements; 'n prime' is not needed); the refusals and keXHat are premise-free. "
+              "is relative to 'p prime' only, agreement to p prime + associativity + [n]G = O + [k]G finite for 0<k<n (premises visible in the statements; 'n prime' is not needed; associativity is proved in SM2/ECAssoc.v and C13_kx_agree_noassoc drops it); the refusals and keXHat are premise-free. "
               "The peer's LONG-TERM key is not validated by the code (a pair (0,0) is taken as infinity): the conformance theorem assumes it is a curve point, "
               "the property does not speak about invalid long-term keys. The code refuses an all-zero K (standard silent). SM3, math/big modelled; tied by "
               "the differential run, which includes the GM/T 0003.5 Annex example as a corpus case.")
